@@ -134,6 +134,7 @@ def item? : Sx → Option Item
   | .list [.atom "text", s] => (str? s).map .text
   | .list [.atom "counter", n] => (str? n).map .counter
   | .list [.atom "string", n, k] => do pure (.str (← str? n) (← keyword? k))
+  | .list [.atom "element", n, k] => do pure (.elem (← str? n) (← keyword? k))
   | _ => none
 
 def val? : Sx → Option Val
@@ -173,9 +174,16 @@ def sets? (x : Sx) : Option (List (String × List SetPiece)) :=
     | _ => none))
 
 def section? : Sx → Option Section
-  | .list [b, n, s1, s2, s3, pc] => do
+  | .list [b, n, s1, s2, s3, pc, w, rn] => do
+    let running ← rn.list?.bind (allSome (fun e => match e with
+      | .list [k, v] => do pure (← str? k, ← str? v)
+      | _ => none))
+    let wrap ← match w with
+      | .atom "none" => some none
+      | .list [i, nm] => do pure (some (← i.nat?, ← str? nm))
+      | _ => none
     pure { brk := ← brk? b, name := ← str? n, sets := ← sets? s1, innerSets := ← sets? s2, lateSets := ← sets? s3,
-           showCounters := ← pc.bool? }
+           showCounters := ← pc.bool?, wrap := wrap, running := running }
   | _ => none
 
 /-! ## Encoding -/
@@ -218,7 +226,8 @@ def showPlaced (p : Placed) (ws : List String) : String :=
 
 def showPageOut (o : PageOut) : String :=
   let b := o.box
-  s!"(page ({o.head.side.toCss} {o.head.blank} {showStr o.head.name} {o.head.index}) " ++
+  s!"(page ({o.head.side.toCss} {o.head.blank} {showStr o.head.name} {o.head.index} " ++
+    "(" ++ " ".intercalate (o.groups.map (fun (n, i) => s!"({showStr n} {i})")) ++ ")) " ++
   s!"(box {showRat b.marginWidth} {showRat b.marginHeight} {showRat b.width} {showRat b.height} " ++
   s!"{showRat b.mt} {showRat b.mr} {showRat b.mb} {showRat b.ml}) " ++
   s!"(bleed {showRat o.bleed.top} {showRat o.bleed.right} {showRat o.bleed.bottom} {showRat o.bleed.left}) " ++
@@ -323,13 +332,16 @@ def handle (cmd : String) (args : List Sx) : Option String :=
   | "bleed", [v, crop] => do
     pure (showRat (computedBleed (← v.len?) (← crop.bool?)))
   -- the whole document
-  | "doc", [ltr, rb, fs, .list secs, .list rules] => do
+  -- `cmp`: compare `PageType.groups` (off for documents whose pages are re-made in later passes: known
+  -- finding page-groups-lost-on-remake)
+  | "doc", [ltr, rb, fs, cmp, .list secs, .list rules] => do
+    let cmp ← cmp.bool?
     let secs ← allSome section? secs
     let rules ← allSome rules? rules
     let d : Doc := { ltr := ← ltr.bool?, rootBreak := ← brk? rb, fontSize := ← fs.rat?, sections := secs,
                      rules := rules.flatten }
     match render d with
-    | .ok pages => pure (" ".intercalate (pages.map showPageOut))
+    | .ok pages => pure (" ".intercalate (pages.map (fun o => showPageOut (if cmp then o else { o with groups := [] }))))
     | .error e => pure (errOut e)
   | _, _ => none
 
